@@ -229,7 +229,7 @@ class World(WorldBase):
             "chunk": rng.choice(CHUNKS),
             "buf": rng.choice(BUFS),
             "dumps": rng.sample(DUMPS, rng.randint(1, 3)),
-            "maxn": rng.choice([3, 6, 12]),
+            "maxn": rng.choice([3, 6, 12, 12, 40, 120]),     # two- and three-digit ids and counts now and then
             "w_dump": rng.choice([1, 3, 5]),
             "w_hoomd": rng.choice([0, 1, 2]),
             "w_log": rng.choice([0, 1, 3]),
@@ -389,6 +389,8 @@ class World(WorldBase):
         lo = rng.uniform(-20, 20, size=ndim)
         if rng.random() < 0.2:
             lo = np.round(lo)
+        if rng.random() < 0.1:
+            lo = lo * 10.0 ** rng.integers(2, 6)          # far-away boxes: many digits before the point
         L = rng.uniform(2.0, 30.0, size=ndim)
         if rng.random() < 0.2:
             lo = -L / 2
@@ -422,7 +424,14 @@ class World(WorldBase):
         rows = []
         text = header
         for k in order:
-            toks = [str(k + 1), str(int(types[k]))] + [fmt_float(rng, v) for v in pos[k]] + [fmt_float(rng, v) for v in extras[k]]
+            ctoks = [fmt_float(rng, v) for v in pos[k]]
+            if d["coord"] == "x":
+                # a lossy number format must not move an atom out of the (printed) box: the
+                # documented wrap of the readers has to stay a no-op for what is written
+                for a_, tk in enumerate(ctoks):
+                    if not (float(f"{bounds[a_][0]:.6f}") < float(tk) < float(f"{bounds[a_][1]:.6f}")):
+                        ctoks[a_] = repr(float(pos[k][a_]))
+            toks = [str(k + 1), str(int(types[k]))] + ctoks + [fmt_float(rng, v) for v in extras[k]]
             rows.append(toks)
             text += " ".join(toks) + "\n"
         # the producer appends a whole frame as one unit: a reader never sees a torn frame
@@ -599,7 +608,11 @@ class World(WorldBase):
             if got_t.shape != (len(sel),) or [float(x) for x in got_t] != [float(x) for x in want_types]:
                 raise Violation(f"C19/center-types:{tag}", f"frame {t}: {got_t.tolist()} expected {want_types} (map {mol})")
             got_p = np.asarray(s.positions)
-            if got_p.shape != want_pos.shape or not np.array_equal(got_p, want_pos):
+            # the reader's documented wrap into the box is a mathematical no-op here (atoms are
+            # written strictly inside) but not a bit-exact one for boxes far from the origin:
+            # a few units in the last place of the box coordinates are not a disagreement
+            slack = 8 * float(np.spacing(np.max(np.abs(w["bounds"])) + 1.0))
+            if got_p.shape != want_pos.shape or (got_p.size and float(np.max(np.abs(got_p - want_pos))) > slack):
                 raise Violation(f"C19/center-positions:{tag}", f"frame {t}: {got_p.tolist()[:3]} expected {want_pos.tolist()[:3]}")
             self._check_box(s, w, t, tag, ndim)
             if len(sel) == 0:
